@@ -354,3 +354,11 @@ mod tests {
         }
     }
 }
+
+#[cfg(libp2p_verif)]
+impl MdnsResponse {
+    /// Verification hook: the decoded peers, before address translation.
+    pub(crate) fn verif_peers(&self) -> impl Iterator<Item = &MdnsPeer> {
+        self.discovered_peers()
+    }
+}
